@@ -1096,6 +1096,7 @@ func (n *network) startAcceptor(a gen.AcceptorOptions) (*acceptor, error) {
 		cert_manager:     cert_manager,
 		max_message_size: a.MaxMessageSize,
 		atom_mapping:     make(map[gen.Atom]gen.Atom),
+		cookie:           a.Cookie,
 	}
 	if a.Cookie == "" {
 		acceptor.cookie = n.cookie
